@@ -9,7 +9,7 @@ RULE = ("cases = (encoded array, index) for every array of length 1..L over {0,1
         "oracle = the same index applied to the dense array; non-trivial = the array has at least two runs and the result is non-empty")
 ASSUMPTIONS = ["oracle: numpy indexing of the dense array; values only", "out-of-range integers are outside the statement and not issued",
                "results that are run-length arrays must also satisfy the constructor invariant (C14)"]
-REQUIRED_FEATURES = ["negative_int", "bound_beyond_end", "negative_step", "empty_result", "rl_mask", "rl_mask_not_canonical", "dense_mask", "window_pair", "list_with_repeats",
+REQUIRED_FEATURES = ["negative_int", "bound_beyond_end", "negative_step", "empty_result", "rl_mask", "rl_mask_not_canonical", "dense_mask", "window_pair", "list_with_repeats", "close_float_values",
                      "step_larger_than_run"]
 BOUNDS = {"quick": "all arrays over {0,1,2} of length 1..4 and those of length 5 starting with 0 x {every int in [-L,L-1]; every list of length<=2; every dense and run-length mask; every slice with "
                    "start,stop in {None} u [-(L+2),L+2] and step in {None,+-1,+-2,+-3,+-4}; every vector of 1-2 windows}",
@@ -25,6 +25,12 @@ def shards(tier):
             if L >= 5 and t[0] != 0:
                 continue
             out.append({"a": list(t)})
+    # float arrays over values that are different but "close" (1.0 vs 1.0000001, 0.0 vs 1e-9): runs must only join on ==
+    for L in (2, 3, 4):
+        for t in itertools.product(range(4), repeat=L):
+            if L == 4 and t[0] != 0:
+                continue
+            out.append({"a": list(t), "slim": 1, "vals": "close"})
     # two 40-element arrays with long and short runs (size / threshold effects), reduced slice grid
     out.append({"a": [0] * 9 + [1] * 1 + [2] * 14 + [0, 1, 0, 1] + [2] * 12, "slim": 1})
     out.append({"a": [(i * 7 // 5) % 3 for i in range(40)], "slim": 1})
@@ -36,9 +42,21 @@ def shards(tier):
     return out
 
 
+CLOSE = [0.0, 1e-9, 1.0, 1.0000001]
+
+
 def cases(shard, tier):
     t = shard["a"]
     L = len(t)
+    if shard.get("vals") == "close":
+        rng = [None, -L, -1, 0, 1, L]
+        for st in rng:
+            for sp in rng:
+                for step in (None, 2, 3, -1, -2, -3):
+                    yield [t, ["slice", st, sp, step], "close"]
+        for m in itertools.product([0, 1], repeat=L):
+            yield [t, ["rlmask", list(m)], "close"]
+        return
     for i in range(-L, L):
         yield [t, ["int", i]]
     rng = [None] + list(range(-(L + 2), L + 3))
@@ -67,8 +85,12 @@ def cases(shard, tier):
 
 def check(case, acc):
     from npstructures import RunLengthArray
-    t, idx = case
-    a = np.array(t, dtype=np.int64)
+    t, idx = case[:2]
+    if len(case) > 2:
+        acc.feature("close_float_values")
+        a = np.array([CLOSE[i] for i in t], dtype=np.float64)
+    else:
+        a = np.array(t, dtype=np.int64)
     L = len(a)
     r = RunLengthArray.from_array(a.copy())
     kind = idx[0]
